@@ -60,7 +60,7 @@ class Effect:
         self.origin = origin   # qualname of the function it was found in
 
     def __repr__(self):
-        return '%s(%s)@%s' % (self.etype, self.info, getattr(self.node, 'lineno', '?'))
+        return '%s(%s)@%s' % (self.etype, self.info, getattr(self.node, '_src_line', getattr(self.node, 'lineno', '?')))
 
 
 def dataset_public_methods(repo):
